@@ -158,6 +158,7 @@ def run(ck, fb, fbd):
     pending_deletions(ck, fb)
     topology_detection(ck, fb)
     from . import readers
+    buffer_rule(ck, fb)
     readers.edge_dup_rule(ck, fb)
     readers.optional_chunk_rule(ck, fb)
 
@@ -629,3 +630,82 @@ def topology_detection(ck, fb):
             ok = bool(over_faces) and bool(over_cells) and any("!= %d" % fv in s for s in rej) and any("!= %d" % cv in s for s in rej)
             (ck.ok if ok else lambda r_, w_, t: ck.violate(r_, w_, t, "C06.detect:%s" % name))("C06.detect", f.where, "%s walks all faces() and all cells() at top level and rejects valences != %d / != %d (top-level ranges: %s)" % (name, fv, cv, sorted(r for r, b in top_level.values())))
     ck.floor("detection_instantiations", n, 2)
+
+
+def buffer_rule(ck, fb):
+    """W.reset: a WriteBuffer is emptied before it is filled again"""
+    ck.rule("C06.buffer", "in the OVMB writer every (re)use of a WriteBuffer - constructing an Encoder on it, serialising a property default into it - is dominated by a reset() of that buffer (directly or through a callee that resets its buffer parameter), and when the buffer lives longer than the enclosing loop the reset happens inside that loop: otherwise the bytes of the previous chunk / property leak into the next one")
+    fns = [f for f in fb.fns.values() if f.has_cfg and f.file.endswith("/IO/detail/BinaryFileWriter.cc")]
+
+    def key(n):
+        n = unwrap(n)
+        if isinstance(n, dict) and n.get("k") == "var":
+            return ("var", n.get("id"))
+        if isinstance(n, dict) and n.get("k") == "mem":
+            return ("mem", n.get("f"))
+        return None
+
+    def is_buf(n):
+        n = unwrap(n)
+        return isinstance(n, dict) and "WriteBuffer" in (n.get("t") or "")
+
+    # callees that reset a buffer parameter
+    resets_param = {}
+    for g in fns:
+        for b, i, x in g.nodes(("call",)):
+            if x.get("pn", "").endswith("WriteBuffer::reset") and x.get("r") is not None:
+                r = unwrap(g.resolve(x["r"]))
+                if isinstance(r, dict) and r.get("k") == "var" and r.get("s") == "param":
+                    for k, p_ in enumerate(g.d["params"]):
+                        if p_["id"] == r.get("id"):
+                            resets_param.setdefault(g.id, set()).add(k)
+    n = 0
+    for f in fns:
+        resets = {}
+        fills = []
+        for b, i, x in f.nodes(("call", "ctor")):
+            if b not in f.reach():
+                continue
+            if x.get("k") == "call":
+                pn = x.get("pn", "")
+                if pn.endswith("WriteBuffer::reset") and x.get("r") is not None:
+                    k_ = key(f.resolve(x["r"]))
+                    if k_:
+                        resets.setdefault(k_, []).append((b, i))
+                    continue
+                args = f.resolve(x.get("a", []))
+                for ai, a in enumerate(args):
+                    if is_buf(a) and key(a):
+                        if ai in resets_param.get(x.get("u"), ()):
+                            resets.setdefault(key(a), []).append((b, i))
+                        elif pn.split("::")[-1] in ("serialize_default", "serialize"):
+                            fills.append((b, i, key(a), x, pn.split("::")[-1]))
+            elif x.get("t", "").endswith("Encoder") and len(x.get("a", [])) == 1:
+                a = f.resolve(x["a"][0])
+                if is_buf(a) and key(a):
+                    fills.append((b, i, key(a), x, "Encoder(...)"))
+        loops = f.loops()
+        for b, i, k_, x, what in fills:
+            n += 1
+            rs = resets.get(k_, [])
+            inner = [lp for lp in loops if b in lp[1]]
+            ok = False
+            for rb, ri in rs:
+                if not f.dominates((rb, ri), (b, i)):
+                    continue
+                if inner:
+                    lp = min(inner, key=lambda q: len(q[1]))
+                    declared_inside = False
+                    if k_[0] == "var":
+                        for db, di, d in f.nodes(("decl",)):
+                            if any(v.get("id") == k_[1] for v in d["vars"]) and db in lp[1]:
+                                declared_inside = True
+                    if rb not in lp[1] and not declared_inside:
+                        continue
+                ok = True
+            if not ok and k_[0] == "var":
+                # a buffer declared (default-constructed) right before its only use, outside any loop, starts empty
+                decls = [(db, di) for db, di, d in f.nodes(("decl",)) if any(v.get("id") == k_[1] for v in d["vars"])]
+                ok = bool(decls) and not inner and all(f.dominates(dp, (b, i)) for dp in decls) and len([1 for fb_, fi_, fk_, fx_, fw_ in fills if fk_ == k_]) == 1
+            (ck.ok if ok else lambda r, w, t: ck.violate(r, w, t, "C06.buffer:%s:%s" % (f.pq, k_[1])))("C06.buffer", f.loc(x), "%s: %s on %s follows a reset() of that buffer in the same iteration" % (f.pq.split("::")[-1], what, str(k_[1]).split("@")[0]))
+    ck.floor("buffer_fill_sites", n, 8)
